@@ -4,6 +4,7 @@ import (
 	"context"
 	"errors"
 	"fmt"
+	"io"
 	"net"
 	"strings"
 
@@ -187,6 +188,12 @@ func c20Scenario(p c20P, b Bounds) *Scenario {
 						j.Go("fail", func() { vs.Event("env", "fail-other"); acc.failWith = errAccept })
 					case "fail-temp":
 						j.Go("fail", func() { vs.Event("env", "fail-other"); acc.failWith = tempErr{} })
+					case "fail-eof":
+						j.Go("fail", func() { vs.Event("env", "fail-other"); acc.failWith = io.EOF })
+					case "fail-pipe":
+						j.Go("fail", func() { vs.Event("env", "fail-other"); acc.failWith = io.ErrClosedPipe })
+					case "fail-ueof":
+						j.Go("fail", func() { vs.Event("env", "fail-other"); acc.failWith = fmt.Errorf("accept: %w", io.ErrUnexpectedEOF) })
 					case "fail-closed":
 						j.Go("fail", func() { vs.Event("env", "fail-closed"); acc.failWith = fmt.Errorf("listener: %w", net.ErrClosed) })
 					}
@@ -302,11 +309,12 @@ func c20Scenario(p c20P, b Bounds) *Scenario {
 				rv := x.Log[ret].Arg(1)
 				switch {
 				case rv == "<nil>":
-					cancelled := findEv(x, 0, "env", "cancel") >= 0 || findEv(x, 0, "env", "cancel-final") >= 0
+					c1, c2 := findEv(x, 0, "env", "cancel"), findEv(x, 0, "env", "cancel-final")
+					cancelled := (c1 >= 0 && c1 < ret) || (c2 >= 0 && c2 < ret)
 					if !(cancelled || (fc >= 0 && fc < ret)) {
 						v = append(v, Viol{"C20.R4", "Loop returned nil although neither the context ended nor the listener was closed"})
 					}
-				case rv == errAccept.Error() || rv == (tempErr{}).Error():
+				case rv == errAccept.Error() || rv == (tempErr{}).Error() || rv == io.EOF.Error() || rv == io.ErrClosedPipe.Error() || rv == "accept: "+io.ErrUnexpectedEOF.Error():
 					if fo < 0 || fo > ret {
 						v = append(v, Viol{"C20.R4", "Loop returned the accepter's error before it had failed"})
 					}
@@ -449,7 +457,7 @@ func c20Scenarios(tier string) []*Scenario {
 			out = append(out, c20Scenario(c20P{Items: o}, b))
 		}
 	}
-	for _, o := range [][]string{{"connpush"}, {"connpushgo"}, {"connpush", "cancel"}, {"cancel", "connpush"}, {"conn1", "connpush"}, {"connpushgo", "conn1"}, {"connpush", "fail-other"}} {
+	for _, o := range [][]string{{"fail-eof"}, {"conn1", "fail-eof"}, {"fail-pipe"}, {"fail-ueof"}, {"connpush"}, {"connpushgo"}, {"connpush", "cancel"}, {"cancel", "connpush"}, {"conn1", "connpush"}, {"connpushgo", "conn1"}, {"connpush", "fail-other"}} {
 		b := Bounds{1, 1, 0}
 		if !q {
 			b = Bounds{2, 2, 0}
